@@ -40,6 +40,10 @@ func init() {
 	gen("quick", 2, 1, 0, 0, 1)
 	gen("quick", 1, 2, 1, 1, 0)
 	gen("quick", 2, 1, 0, 0, 0, 6, 7)
+	// every length symbol 257..285 with every value of its extra bits (one literal, then one match)
+	p.Harnesses = append(p.Harnesses, HSpec{Prop: "C16", Pkg: L, Dir: "c16", Func: "VH_C16_CutGen", Cfg: cfg,
+		Label:  "[blocks=1 tokens=2 dyn=0 every length symbol]",
+		Params: map[string]int{"BLOCKS": 1, "TOKENS": 2, "DYN": 0, "W": 0, "SELFCHECK": 0, "LENSYMS": 2, "TAIL": 0, "FILL9": 0}, Reach: []string{"cutgen/done"}})
 	zl := func(tier string, blocks, tokens, dyn, w int) {
 		p.Harnesses = append(p.Harnesses, HSpec{Prop: "C16", Pkg: "lib/zlibcut", Dir: "c16z", Func: "VH_C16_ZlibCut", Tier: tier, Cfg: cfg,
 			Label:  fmt.Sprintf("[blocks=%d tokens=%d dyn=%d w=%d]", blocks, tokens, dyn, w),
